@@ -190,7 +190,7 @@ func (b *c17CtxBody) Read(p []byte) (int, error) {
 }
 func (b *c17CtxBody) Close() error { return b.rc.Close() }
 
-var c17Keys = []string{"id", "name", "kind", "ver"}
+var c17Keys = []string{"id", "name", "kind", "ver", "user-id", "user.id", "ID", "id2", "k~1"}
 var c17Vals = []string{"42", "abc", "x-y_z", "a.b~c", "A+B", "k=v", "t:1", "u@h", "1,2", "0"}
 
 func genC17(t *simrt.Tape, tier string) Scenario {
